@@ -1,10 +1,14 @@
 package main
 
 import (
+	"bytes"
 	"encoding/json"
 	"os"
 	"path/filepath"
 	"sync"
+
+	"github.com/jsightapi/jsight-api-go-library/core"
+	"github.com/jsightapi/jsight-api-go-library/kit"
 )
 
 // concCase: several projects processed concurrently in one process, each several
@@ -76,6 +80,45 @@ func cmdConc(line []byte, emit func(interface{})) {
 		}(i)
 	}
 	wg.Wait()
+	// one validated catalog serialised and read from many goroutines at once
+	if c.Readers > 0 {
+		for i := range c.Cases {
+			if solo[i].Outcome != "ok" {
+				continue
+			}
+			j, err := kit.NewJapi(filepath.Join(tops[i], "proj", c.Cases[i].Root), core.WithFixedSeedForRegex())
+			if err != nil || j.ValidateJAPI() != nil {
+				continue
+			}
+			first, _ := j.ToJson()
+			var rg sync.WaitGroup
+			for r := 0; r < c.Readers; r++ {
+				rg.Add(1)
+				go func(r int) {
+					defer rg.Done()
+					var b []byte
+					if r%2 == 0 {
+						b, _ = j.ToJson()
+					} else {
+						bi, _ := j.ToJsonIndent()
+						var buf bytes.Buffer
+						_ = json.Compact(&buf, bi)
+						b = buf.Bytes()
+					}
+					t := j.Title()
+					mu.Lock()
+					o.Runs++
+					if (string(b) != string(first) || t != solo[i].Title) && len(o.Diffs) < 5 {
+						d, _ := json.Marshal(map[string]interface{}{"case": c.Cases[i].ID, "reader": r, "solo": "ok", "concurrent": "ok",
+							"json_diff": firstDiff(string(first), string(b)), "solo_json": string(first), "conc_json": string(b), "readers": true})
+						o.Diffs = append(o.Diffs, string(d))
+					}
+					mu.Unlock()
+				}(r)
+			}
+			rg.Wait()
+		}
+	}
 	emit(o)
 }
 
